@@ -249,6 +249,15 @@ def pool_deck(draw, tier, homogeneous=False, special=False):
         from . import c10
         mcase = draw(c10.mat_case(tier))
         case = {'deck': c10.build_deck(mcase), 'labels': ['pool:materials']}
+        if draw(st.booleans()):
+            # a mass-fraction card used with an atom density: documented as
+            # unsupported (a warning and an empty composition), but accepted
+            neg = set(m['id'] for m in mcase['mats'] if m['negative'])
+            for c in case['deck']['cells']:
+                if c['mat'] in neg and str(c['rho']).startswith('-'):
+                    c['rho'] = str(c['rho'])[1:]
+                    case['labels'].append('pool:unsupported-density-mix')
+                    break
     elif which == 'like':
         case = draw(gen_hier.like_case(tier))
         case['labels'] = list(case['labels']) + ['pool:like']
